@@ -6,11 +6,11 @@ Scripts are lists of integers: [nslots, op, x, y, z, op, x, y, z, ...].
 M = 1000000007
 
 OPS = {"NEW": 0, "LINK": 1, "UNLINK": 2, "DROP": 3, "ARR": 4, "ARRSET": 5, "CHURN": 6, "SUM": 7, "GCFULL": 8,
-       "GCMINOR": 9, "STR": 10, "DEEP": 11, "PAIRS": 12, "CLOSURE": 13, "GLOBAL": 14, "SUMALL": 15, "KEEPCHURN": 16, "FILLARR": 17, "REFRESH": 18, "SNAP": 19}
+       "GCMINOR": 9, "STR": 10, "DEEP": 11, "PAIRS": 12, "CLOSURE": 13, "GLOBAL": 14, "SUMALL": 15, "KEEPCHURN": 16, "FILLARR": 17, "REFRESH": 18, "SNAP": 19, "DUO": 20}
 
 
 class Node:
-    __slots__ = ("id", "a", "b", "arr", "pairs", "payload_len", "slen", "f", "mark")
+    __slots__ = ("id", "a", "b", "arr", "pairs", "payload_len", "slen", "f", "mark", "two", "duos")
 
     def __init__(self, id, k):
         self.id = id
@@ -22,6 +22,8 @@ class Node:
         self.slen = 0
         self.f = None  # captured node
         self.mark = 0
+        self.two = (None, 0, None)
+        self.duos = None
 
 
 class World:
@@ -69,6 +71,18 @@ class World:
                     s = (s + k) % M
                     if pn is not None:
                         stack.append((pn, depth + 1))
+            tl, tk, tr = n.two
+            s = (s + tk) % M
+            if tl is not None:
+                stack.append((tl, depth + 1))
+            if tr is not None:
+                stack.append((tr, depth + 1))
+            if n.duos is not None:
+                for (dl, dr) in n.duos:
+                    if dl is not None:
+                        stack.append((dl, depth + 1))
+                    if dr is not None:
+                        stack.append((dr, depth + 1))
         return s
 
     def deep(self, d, keep, churn):
@@ -150,6 +164,20 @@ class World:
                 self.out.append("global %d" % self.checksum(self.glob))
             else:
                 self.glob = None
+        elif op == 20:
+            dst = self.slots[x % ns]
+            if dst is not None:
+                src = self.slots[y % ns]
+                pat = z % 4
+                l = src if pat in (0, 2) else None
+                r = src if pat in (1, 2) else None
+                if (z // 4) % 2 == 1:
+                    if dst.duos is None:
+                        dst.duos = [(None, None)] * 4
+                        self.alloc_bytes += 24 + 16 * 4
+                    dst.duos[(z // 8) % 4] = (l, r)
+                else:
+                    dst.two = (l, z, r)
         elif op == 17:
             dst = self.slots[x % ns]
             if dst is not None:
@@ -208,6 +236,12 @@ def live_bytes(w):
         if n.pairs is not None:
             total += 24 + 16 * len(n.pairs)
             stack.extend(p for (_, p) in n.pairs if p is not None)
+        total += 24
+        stack.extend(c for c in (n.two[0], n.two[2]) if c is not None)
+        if n.duos is not None:
+            total += 24 + 16 * len(n.duos)
+            for (dl, dr) in n.duos:
+                stack.extend(c for c in (dl, dr) if c is not None)
     return total
 
 
@@ -224,12 +258,12 @@ def generate(rng, max_ops=200, live_limit=256 * 1024, profile=None):
     if profile == "wide":
         return generate_wide(rng), profile
     weights = {
-        "mixed": dict(NEW=10, LINK=10, UNLINK=3, DROP=4, ARR=3, ARRSET=6, CHURN=4, SUM=6, GCFULL=1, GCMINOR=2, STR=2, DEEP=2, PAIRS=2, CLOSURE=2, GLOBAL=2, SUMALL=2, KEEPCHURN=1),
-        "links": dict(NEW=12, LINK=20, UNLINK=6, DROP=5, SUM=6, GCMINOR=2, GCFULL=1, SUMALL=2, CHURN=3),
+        "mixed": dict(DUO=5, NEW=10, LINK=10, UNLINK=3, DROP=4, ARR=3, ARRSET=6, CHURN=4, SUM=6, GCFULL=1, GCMINOR=2, STR=2, DEEP=2, PAIRS=2, CLOSURE=2, GLOBAL=2, SUMALL=2, KEEPCHURN=1),
+        "links": dict(DUO=8, NEW=12, LINK=20, UNLINK=6, DROP=5, SUM=6, GCMINOR=2, GCFULL=1, SUMALL=2, CHURN=3),
         "arrays": dict(NEW=8, ARR=8, ARRSET=20, LINK=4, DROP=3, SUM=6, CHURN=3, GCMINOR=2, GCFULL=1, SUMALL=2, PAIRS=4),
         "churn": dict(NEW=5, LINK=4, CHURN=14, KEEPCHURN=8, SUM=4, DROP=2, STR=3, SUMALL=1),
         "deep": dict(NEW=6, LINK=6, DEEP=10, SUM=4, CHURN=3, GCMINOR=1, CLOSURE=3),
-        "interior": dict(NEW=8, PAIRS=10, CLOSURE=8, GLOBAL=6, LINK=6, SUM=6, DROP=3, CHURN=4, SUMALL=2, GCMINOR=2),
+        "interior": dict(DUO=10, NEW=8, PAIRS=10, CLOSURE=8, GLOBAL=6, LINK=6, SUM=6, DROP=3, CHURN=4, SUMALL=2, GCMINOR=2),
     }[profile]
     names = list(weights)
     wts = [weights[n] for n in names]
@@ -272,13 +306,15 @@ def generate(rng, max_ops=200, live_limit=256 * 1024, profile=None):
             y = rng.choice([0, 1, 2, 7, 30]) if not big else rng.choice([3, 30, 600, 2100])
         elif name == "GLOBAL":
             x = rng.choice([0, 0, 1, 1, 2])
+        elif name == "DUO":
+            z = rng.randrange(32)
         ops.append((name, x, y, z))
     for (name, x, y, z) in ops:
         # dry-run on a copy is expensive; run on the model and roll back by re-checking size
         before = list(script)
         script += [OPS[name], x, y, z]
         w.step(OPS[name], x, y, z)
-        if name in ("NEW", "ARR", "ARRSET", "LINK", "STR", "PAIRS", "CLOSURE", "GLOBAL", "KEEPCHURN") and live_bytes(w) > live_limit:
+        if name in ("NEW", "ARR", "ARRSET", "LINK", "STR", "PAIRS", "CLOSURE", "GLOBAL", "KEEPCHURN", "DUO") and live_bytes(w) > live_limit:
             # free something instead: drop the slot we just grew
             script += [OPS["DROP"], x, 0, 0]
             w.step(OPS["DROP"], x, 0, 0)
@@ -339,7 +375,10 @@ def generate_oldwrite(rng):
             c = nh + i
             ops.append(("NEW", c, rng.choice([0, 3, 3, 16]), 0))
             kind = rng.random()
-            if kind < 0.6:
+            if kind < 0.25:
+                # aggregate store: the young child sits in the left, the right or both slots
+                ops.append(("DUO", i, c, rng.randrange(32)))
+            elif kind < 0.6:
                 ops.append(("LINK", i, c, rng.randrange(2)))
             elif kind < 0.8:
                 ops.append(("ARR", i, rng.choice([1, 4]), 0))
